@@ -1193,6 +1193,7 @@ func (m *Model) execForIn(x *ForIn) signal {
 		keys := it.O.SortedKeys()
 		if len(keys) > 1 {
 			m.tag("obj_multikey_iter")
+			m.multiKeyPrinted = true // the order of the keys is deterministic but not stated: the trace is compared order-free
 		}
 		for _, k := range keys {
 			s, ok := it.O.M[k]
@@ -1405,6 +1406,9 @@ func (m *Model) evalSelector(sel Expr, gv any) *Slot {
 		defer func() {
 			m.out.WriteString(sub.out.String())
 			m.steps = sub.steps
+			if sub.multiKeyPrinted {
+				m.multiKeyPrinted = true
+			}
 			if r := recover(); r != nil {
 				if c, ok := r.(ctl); ok {
 					m.tag("pinned:signal-in-selector")
